@@ -69,6 +69,11 @@ TEXT = {
   technique='metamorphic property-based testing: generated reproducible FAT histories x SOURCE_DATE_EPOCH values executed at two placements in-process and again in a child process 2.1 s later under another TZ, SHA-256 of the volume range must agree; generated GPT/MBR tables written twice and re-written after reading must leave identical bytes',
   level_text='Generated histories with a metamorphic oracle (same inputs, different time / process / placement => same bytes). Exploration.',
   level_note='Trusts SHA-256 comparison of the instrumented device; the second pass is one batch per shard.'),
+ 'C19': dict(
+  design_ref='DESIGN.md §4 C19',
+  technique='property-based testing: generated ext4 histories rich in Chmod/Chown/Chtimes/Symlink with a per-call frame check, FAT histories with Chtimes and attribute setters verified on raw directory entries after reopen, and workspace trees with modes/owners/mtimes/symlinks finalized to squashfs and Rock Ridge ISO; oracle = model of the set values at the format resolution + nothing else changes + kinds never confused',
+  level_text='Generated histories/trees with a model oracle and a frame-condition invariant. Exploration.',
+  level_note='Trusts the harness model of each format\'s resolution (FAT 2 s / date-only access time, squashfs 1 s) and the independent FAT entry parser.'),
  'C15': dict(
   design_ref='DESIGN.md §4 C15',
   technique='fault enumeration: every GPT header field x boundary values x CRC recomputed/stale x primary/backup/both, 2-field size combinations, entry and MBR-slot corruptions, truncations, plus random images; oracle = no panic, watchdog, heap-allocation bound, returned tables only from CRC-valid data (independent parser); thorough adds a native go fuzz campaign',
